@@ -69,6 +69,7 @@ def atom(op, *args) -> Atom:
 
 
 def reset():
+    BOOLEAN_ATOMS.clear()
     Atom._table.clear()
     Atom._count = 0
     _rat_classes.clear()
@@ -133,6 +134,7 @@ def _pmul(p, q):
 # application (reductions, user callables, indexing) is left untouched.
 ELEMENTWISE = {"exp", "abs", "clamp", "gt", "ge", "lt", "le", "eq", "ne", "and", "or", "not", "log", "sqrt",
                "round", "ceil", "floor", "pow", "mod", "sign", "erf", "lgamma", "max", "min", "heaviside"}
+BOOLEAN_ATOMS: set = set()   # uids of atoms used as the condition of a tensor-level where(): boolean by torch's contract
 BOOL_OPS = {"gt", "ge", "lt", "le", "eq", "ne", "and", "or", "not", "isnone", "bool"}
 
 
@@ -535,7 +537,7 @@ def restrict(x, facts: "Facts"):
 
 def _restrict_atom(at: Atom, facts: "Facts"):
     """Replacement Rat for atom under facts, or None when unchanged."""
-    if at.op in BOOL_OPS:
+    if at.op in BOOL_OPS or at.uid in BOOLEAN_ATOMS:
         v = facts.lookup(Rat.of(at))
         if v is not None:
             return Rat.const(1 if v else 0)
@@ -706,12 +708,34 @@ def show_tree(t, indent=0) -> str:
     return f"{pad}if {t[1].sortkey()}:\n{show_tree(t[2], indent + 1)}\n{pad}else:\n{show_tree(t[3], indent + 1)}"
 
 
-def equal(a, b) -> bool:  # noqa: F811  (full equality: flat first, then decision trees)
+def equal(a, b) -> bool:  # noqa: F811  (full equality: flat first, then joint Shannon expansion)
     if _flat_equal(a, b):
         return True
     if _has_ite(a) or _has_ite(b):
-        return tree_eq(lift(a), lift(b))
+        return _joint_eq(a, b, 0)
     return False
+
+
+def _joint_eq(a, b, depth) -> bool:
+    """Expand both terms over the union of their atomic conditions (innermost first).  Conditions that occur as
+    plain factors in the other term (mask * x vs where(mask, x, 0)) are decided consistently on both sides."""
+    if _flat_equal(a, b):
+        return True
+    if depth > 14:
+        return False
+    conds: dict = {}
+    _collect_conds(a, conds, set())
+    _collect_conds(b, conds, set())
+    if not conds:
+        return False
+    simple = [x for x in conds.values() if not any(_has_ite(y) for y in x.args)]
+    c = min(simple or list(conds.values()), key=lambda x: x.sortkey())
+    cr = Rat.of(c)
+    for val in (True, False):
+        f = Facts().assume(cr, val)
+        if not _joint_eq(restrict(a, f), restrict(b, f), depth + 1):
+            return False
+    return True
 
 
 # --------------------------------------------------------------------------- sign domain over terms
@@ -729,23 +753,20 @@ def sign_of(x, assume: dict, depth=0) -> str:
         k = at.sortkey()
         if k in assume:
             return assume[k]
-        if at.op == "exp" or at.op in BOOL_OPS or at.op in ("abs", "sqrt"):
+        if at.op == "exp" or at.op in BOOL_OPS or at.op in ("abs", "sqrt") or at.uid in BOOLEAN_ATOMS:
             return "P"
         if at.op == "ite":
             return _join(sign_of(at.args[1], assume, depth + 1), sign_of(at.args[2], assume, depth + 1))
         if at.op == "clamp":
             v, lo, hi = at.args
             sv = sign_of(v, assume, depth + 1)
-            slo = sign_of(lo, assume, depth + 1) if isinstance(lo, Rat) and lo.as_atom() is None or (isinstance(lo, Rat) and lo.as_const() is not None) else None
+            slo = sign_of(lo, assume, depth + 1) if isinstance(lo, Rat) and lo.as_const() is not None else None
             shi = sign_of(hi, assume, depth + 1) if isinstance(hi, Rat) and hi.as_const() is not None else None
             if slo in ("P", "Z"):
                 return "P"
             if shi in ("N", "Z"):
                 return "N"
             return sv
-        if at.op in ("max",):
-            ss = [sign_of(a, assume, depth + 1) for a in at.args]
-            return "P" if any(s in ("P",) for s in ss) or all(s in ("P", "Z") for s in ss) else "T"
         if at.op in ("m.sum", "m.nansum", "m.mean", "f.sum", "f.nansum", "f.mean", "m.view", "m.unsqueeze", "m.reshape", "index"):
             return sign_of(at.args[0], assume, depth + 1) if at.args and isinstance(at.args[0], Rat) else "T"
         return "T"
